@@ -9,6 +9,7 @@ import TT.Driver.C11
 import TT.Driver.C12
 import TT.Driver.C13
 import TT.Driver.C15
+import TT.Driver.C18
 import TT.Driver.C19
 /-
 Line-protocol driver: one query per input line, one answer per output line.
@@ -29,6 +30,7 @@ def answer (line : String) : String :=
   | "c12" :: rest => c12 rest
   | "c13" :: rest => c13 rest
   | "c15" :: rest => c15 rest
+  | "c18" :: rest => c18 rest
   | "c19" :: rest => c19 rest
   | _ => "bad-op"
 
